@@ -191,6 +191,8 @@ func checkCmd(args []string) int {
 			all = append(all, mine...)
 		}
 	}
+	// declaration-level obligations (decided by the generator on the typed program)
+	all = append(all, e.declObligations(prop)...)
 	// spec-level lemmas checked by an independent prover (Lean 4, core only)
 	for _, lm := range lemmaFiles[prop] {
 		o := runLeanLemma(lm)
